@@ -38,7 +38,7 @@ def install_cbc():
     return out
 
 
-def gen_instance(rng, graph=None, max_comps=6, max_agents=4, tiny=False, asymmetric_routes=False, secp_hint_p=0.4, pin_bias=False):
+def gen_instance(rng, graph=None, max_comps=6, max_agents=4, tiny=False, asymmetric_routes=False, secp_hint_p=0.4, pin_bias=False, hint_bias=False):
     graph = graph or rng.choice(list(GRAPHS))
     case = gen.gen_case(rng, min_vars=1, max_vars=3 if tiny else 5, max_dom=2, palettes=("ties",), max_space=64,
                         var_costs=False, binary_only=(graph == "ordered_graph"), nary=True,
@@ -54,7 +54,7 @@ def gen_instance(rng, graph=None, max_comps=6, max_agents=4, tiny=False, asymmet
     na = rng.randint(1, 3 if tiny else max_agents)
     agents = ["a%d" % i for i in range(na)]
     total = sum(fp.values())
-    capkind = rng.choice(["ample", "ample", "exact", "small", "mixed"]) if not pin_bias else rng.choice(["ample", "exact", "exact", "small", "mixed"])
+    capkind = rng.choice(["ample", "ample", "exact", "small", "mixed"]) if not (pin_bias or hint_bias) else rng.choice(["ample", "exact", "exact", "small", "mixed"])
     adefs = []
     default_route = rng.choice([1, 1, 2])
     routes = {}
@@ -97,8 +97,10 @@ def gen_instance(rng, graph=None, max_comps=6, max_agents=4, tiny=False, asymmet
             for d in zs[1:]:
                 d["hosting_costs"][n] = 2
     hints = {"must_host": {}, "host_with": {}}
-    if rng.random() < 0.35 and names:
-        for n in rng.sample(names, min(len(names), rng.randint(1, 2))):
+    if (hint_bias or rng.random() < 0.35) and names:
+        # hint_bias: placement hints for 1-3 computations together with tight capacities (methods that place at random and
+        # retry must honour the hints in every attempt)
+        for n in rng.sample(names, min(len(names), rng.randint(1, 3 if hint_bias else 2))):
             hints["must_host"].setdefault(rng.choice(agents), []).append(n)
     zero_cap = [d["name"] for d in adefs if d["capacity"] == 0]
     if zero_cap and names and rng.random() < 0.5:
